@@ -24,7 +24,7 @@ def run(case):
             k = op[1]
             inst = insts[k]
             before = hits_of(inst.get_model())
-            quiet(sample, inst, op[2])
+            quiet(sample, inst, op[2], op[3] if len(op) > 3 else 1)
             after = hits_of(inst.get_model())
             deltas = []
             for a, b in zip(before, after):
